@@ -36,6 +36,7 @@ type weights struct {
 	multiPct   int // multi-message transactions
 	scramble   int // signer focus: random signer / named address
 	granterPct int // use an existing fee grant
+	lockedPct  int // prefer holders of locked eFUND as payers
 	govPct     int // GOVEXEC per block
 	maxCheck   int // CHECK probes per block gap
 	longSteps  bool
@@ -49,9 +50,9 @@ var txKinds = []string{
 }
 
 var focusWeights = map[string]map[string]int{
-	"all": {},
-	"ent": {"ent.raise": 8, "ent.decide": 14, "ent.wl": 4, "wrk.reg": 2, "wrk.rec": 3, "bcn.reg": 1, "bcn.rec": 2, "bank.send": 2},
-	"reg": {"wrk.reg": 4, "wrk.rec": 12, "wrk.buy": 6, "bcn.reg": 4, "bcn.rec": 12, "bcn.buy": 6, "bank.send": 1},
+	"all":    {},
+	"ent":    {"ent.raise": 8, "ent.decide": 14, "ent.wl": 4, "wrk.reg": 2, "wrk.rec": 3, "bcn.reg": 1, "bcn.rec": 2, "bank.send": 2},
+	"reg":    {"wrk.reg": 4, "wrk.rec": 12, "wrk.buy": 6, "bcn.reg": 4, "bcn.rec": 12, "bcn.buy": 6, "bank.send": 1},
 	"stream": {"str.create": 6, "str.claim": 9, "str.topup": 4, "str.rate": 4, "str.cancel": 2, "bank.send": 2},
 	"fees": {"wrk.reg": 3, "wrk.rec": 8, "wrk.buy": 5, "bcn.reg": 3, "bcn.rec": 8, "bcn.buy": 5, "ent.raise": 4, "ent.decide": 6,
 		"feegrant.grant": 3, "bank.send": 1},
@@ -75,7 +76,7 @@ func newWeights(focus string) (*weights, error) {
 	if !ok {
 		return nil, fmt.Errorf("unknown focus %q (want %s)", focus, strings.Join(Focuses(), "|"))
 	}
-	w := &weights{exactPct: 70, execPct: 10, multiPct: 15, granterPct: 10, govPct: 5, maxCheck: 1}
+	w := &weights{exactPct: 70, execPct: 10, multiPct: 15, granterPct: 10, lockedPct: 10, govPct: 5, maxCheck: 1}
 	for _, k := range txKinds {
 		x := fw[k]
 		if len(fw) == 0 || focus == "authz" && x == 0 {
@@ -87,7 +88,7 @@ func newWeights(focus string) (*weights, error) {
 	}
 	switch focus {
 	case "fees":
-		w.exactPct, w.granterPct, w.maxCheck, w.execPct = 40, 35, 4, 5
+		w.exactPct, w.granterPct, w.lockedPct, w.maxCheck, w.execPct = 40, 35, 45, 4, 5
 	case "authz":
 		w.execPct = 25
 	case "gov":
